@@ -529,6 +529,49 @@ def rule_no_stale_deadline(ctx, rep, rid: str) -> None:
 
 
 # ------------------------------------------------------------------------ C15
+def _only_deadline_uses(ctx, f: Func, var: str, depth: int) -> bool:
+    """Every use of local/parameter `var` in f (and its closures) is: the value assigned to a `.start_time`, an
+    operand of an ordered comparison reached through +/- only, a test against None, or an argument of a repository
+    function whose parameter is used in the same ways (two levels)."""
+    if depth > 2:
+        return False
+    scopes = [f] + [h for h in f.children.values() if not isinstance(h.node, ast.Lambda) and var not in h.params()]
+    for h in scopes:
+        for u in h.own_nodes():
+            if not (isinstance(u, ast.Name) and u.id == var and isinstance(u.ctx, ast.Load)):
+                continue
+            p = getattr(u, "_parent", None)
+            child = u
+            while isinstance(p, ast.BinOp) and isinstance(p.op, (ast.Add, ast.Sub)):
+                p, child = getattr(p, "_parent", None), p
+            if isinstance(p, ast.Compare) and (all(isinstance(o, (ast.Gt, ast.GtE, ast.Lt, ast.LtE)) for o in p.ops) or all(isinstance(o, (ast.Is, ast.IsNot)) for o in p.ops)):
+                continue
+            if isinstance(p, ast.Assign) and p.value is child and all(norm(t).endswith(".start_time") for t in p.targets):
+                continue
+            if isinstance(p, ast.IfExp) and p.test is not child:
+                # `x.start_time if x is not None else None`-style selections are followed one level up
+                pp = getattr(p, "_parent", None)
+                if isinstance(pp, ast.Call) and p in pp.args:
+                    p, child = pp, p
+            if isinstance(p, ast.Call) and child in p.args:
+                cs = ctx.cg.site_of_call.get(id(p))
+                if cs is not None and cs.kind == "resolved" and cs.targets:
+                    from ..util import bind_args
+
+                    ok = True
+                    for tg in cs.targets:
+                        if isinstance(tg.node, ast.Lambda):
+                            ok = False
+                            break
+                        pn = next((k for k, a in bind_args(p, tg).items() if a is child), None)
+                        if pn is None or not _only_deadline_uses(ctx, tg, pn, depth + 1):
+                            ok = False
+                    if ok:
+                        continue
+            return False
+    return True
+
+
 def rule_clock_rng_allowlist(ctx, rep, rid: str) -> None:
     rep.rule(rid, "the clock and the random generator are read only by Date.now, Math.random, the limit check, the functions that stamp the deadline and the deadline closures", floor=4)
     lc = ctx.facts.limit_check()
@@ -552,6 +595,8 @@ def rule_clock_rng_allowlist(ctx, rep, rid: str) -> None:
                 why = f"native {natives[id(f)]}"
             elif any(isinstance(x, ast.Assign) and any(norm(t).endswith(".start_time") for t in x.targets) and fn in norm(x.value) for x in f.own_nodes()):
                 why = "stamps the evaluation's start time"
+            elif isinstance(getattr(n, "_parent", None), ast.Assign) and len(n._parent.targets) == 1 and isinstance(n._parent.targets[0], ast.Name) and _only_deadline_uses(ctx, f, n._parent.targets[0].id, 0):
+                why = "start of the evaluation kept in a local that only becomes a start_time or the operand of a deadline comparison"
             else:
                 rets = [x.value for x in f.own_nodes() if isinstance(x, ast.Return) and x.value is not None]
                 if isinstance(f.node, ast.Lambda):
